@@ -31,6 +31,8 @@ pub trait ParsedChunk {
 pub use alph::{AlphChunk, AlphFlags};
 pub use anim::AnimChunk;
 pub use anmf::{AnmfChunk, AnmfFlags};
+#[cfg(signalapp_mp4san_verif)]
+pub use bitstream::VERIF_BIT_BUF_CAPACITY;
 pub use bitstream::{BitBufReader, CanonicalHuffmanTree};
 pub use error::ParseError;
 pub use header::{chunk_type, ChunkHeader, WebpChunk};
